@@ -51,7 +51,28 @@ def stateJson (s : St) : Json :=
                 [("id", toJson t.id), ("fut", futJson t.fut), ("cb", toJson t.cb), ("runs", toJson t.ranOn.length),
                  ("sends", toJson t.sends)])).toArray)]
 
+def refusalJson : Option Refusal → Json
+  | none => Json.str "accepted"
+  | some (.raised .exc) => Json.str "raised_exc"
+  | some (.raised .base) => Json.str "raised_base"
+  | some .logged => Json.str "logged"
+  | some .silent => Json.str "silent"
+
+/-- `{"submitters": [{"func": "...", "open": bool}, …]}`: what each in-tree submitter does with a handler in that state -/
+def handleSubmitters (j : Json) : Except String Json := do
+  let qs ← getArr j "submitters"
+  let rs ← qs.toList.mapM (fun q => do
+    let fn ← getStr q "func"
+    let isOpen ← getBool q "open"
+    let th : TH := { TH.init with isOpen := isOpen }
+    match submitSites.find? (fun s => s.func == fn) with
+    | some site => pure (refusalJson (siteOutcome site th))
+    | none => pure (Json.str "unknown-site"))
+  pure (Json.mkObj [("results", Json.arr rs.toArray),
+                    ("sites", Json.arr (submitSites.map (fun s => Json.str s.func)).toArray)])
+
 def handle (j : Json) : Except String Json := do
+  if (j.getObjVal? "submitters").isOk then return (← handleSubmitters j)
   let outs ← (← getArr j "outcomes").toList.mapM (fun o => do parseOutcome (← o.getStr?))
   let f : Int → Outcome := fun id => (outs[(id - 1).toNat]?).getD .ok
   let sched ← (← getArr j "sched").toList.mapM parseStep
